@@ -148,6 +148,19 @@ class Model:
             up["run_mid"] = z3.If(create, s["next_mid"], s["run_mid"])
             up["next_mid"] = z3.If(create, s["next_mid"] + 1, s["next_mid"])
             up["mid%d" % i] = z3.If(create, s["next_mid"], s["run_mid"])
+        elif prim == "observe_running":
+            # look the key's mutex up without creating one: the thread takes a handle of the stored mutex if any
+            t, f = node.next.get(True), node.next.get(False)
+            tid = IV(t.id) if t is not None else IV(-2)
+            fid = IV(f.id) if f is not None else IV(-2)
+            nxt = z3.If(s["run_has"], tid, fid)
+            up["mid%d" % i] = z3.If(s["run_has"], s["run_mid"], mid)
+        elif prim == "running_insert":
+            # store a freshly created mutex under the key (whatever was there is replaced); the thread keeps its handle
+            up["run_has"] = z3.BoolVal(True)
+            up["run_mid"] = s["next_mid"]
+            up["next_mid"] = s["next_mid"] + 1
+            up["mid%d" % i] = s["next_mid"]
         elif prim == "mutex_lock":
             conds = []
             for m in range(self.n_mutex):
@@ -296,6 +309,17 @@ def simulate(nodes, n_threads, schedule, rwlocks):
                 st["run_mid"] = st["next_mid"]
                 st["next_mid"] += 1
             mid[i] = st["run_mid"]
+        elif p == "observe_running":
+            nxt = node.next.get(st["run_has"])
+            if nxt is None:
+                return None
+            if st["run_has"]:
+                mid[i] = st["run_mid"]
+        elif p == "running_insert":
+            st["run_has"] = True
+            st["run_mid"] = st["next_mid"]
+            mid[i] = st["next_mid"]
+            st["next_mid"] += 1
         elif p == "mutex_lock":
             if st["hold"].get(mid[i], -1) != -1:
                 return None
